@@ -1021,9 +1021,22 @@ def run(tier, seed):
                 v, ln = rnd.choice(POW2[:5] if rnd.random() < 0.7 else VALUES[:17])[:2]
                 ops.append((rand_item(40, 80, kinds=["str", "note", "nc", "rest", "lstr"]), v, ln))
             ops2 = list(ops)
-            how = rnd.choice(["same", "same", "pitch", "value", "drop", "rest-swap", "append"])
+            how = rnd.choice(["same", "same", "pitch", "value", "drop", "rest-swap", "append", "octave", "octave"])
             i = rnd.randrange(len(ops))
-            if how == "pitch":
+            if how == "octave":
+                # the same names one octave away (a melody and its doubling): equal names are not equal contents
+                cand = [k for k, o in enumerate(ops) if o[0][0] in ("note", "stro", "nc", "lnotes")]
+                if cand:
+                    i = rnd.choice(cand)
+                    it = ops[i][0]
+                    d = rnd.choice([-1, 1])
+                    if it[0] in ("note", "stro"):
+                        ops2[i] = ((it[0], it[1], max(0, it[2] + d)), ops[i][1], ops[i][2])
+                    else:
+                        ops2[i] = ((it[0], [(n, max(0, o + d)) for n, o in it[1]]), ops[i][1], ops[i][2])
+                else:
+                    how = "same"
+            elif how == "pitch":
                 ops2[i] = (rand_item(40, 80, rests=False, kinds=["note", "nc"]), ops[i][1], ops[i][2])
             elif how == "value":
                 v, ln = rnd.choice(POW2[:6])
